@@ -16,6 +16,15 @@ CLAIMS = {
   "text": "Proof at the tree level: for every admissible history, limit and level, cache warm-up changes no find/get/len/entry (C12_tree_cache_transparent), only flips compiled flags (C12_only_flags), and cache steps are invisible to the live-set refinement (C12_cache_steps_invisible); tied by histories dense in cache steps and an exhaustive (limit, level) sweep. Partial: the router-level loop (Router::cache, Route::compile) is covered through the router model when present.",
   "design": "DESIGN.md section 4, C12",
   "note": "Trusted: as C08; leaf patterns non-empty (the single point where lazy and compiled matching differ is exhibited by C12_empty_leaf_differs)."},
+
+ "C05": {
+  "text": "Full proof for the modelled pipeline: for every rule list (sampling absent, 0 or >= 100), request override, response code, header list and random draws, the fold model of from_routes_rule/merge followed by get_status_code, filter_headers, create_filter_body, should_log_request equals a declarative window reference (C05_status, C05_headers, C05_body_filters, C05_log), the applied-rule list after the proxy's calls is exactly the set of window rules admitting the code (C05_applied_attributable), reset/stop are the window (C05_reset_discards_lower, C05_stop_blocks_higher), sampling is decided by override/0/100 (C05_sampling), processing order is rank desc then id desc (C05_processing_order). All closed under the global context. Tie: correspondence on thousands of rule lists built from Rule JSON, the crate's Action compared structurally.",
+  "design": "DESIGN.md section 4, C05",
+  "note": "Trusted: Coq kernel; harness + driver; marker substitution is the identity in the modelled cases (C10); unit traces not modelled; rand only through rates 0/100."},
+ "C11": {
+  "text": "Full proof: from_routes_rule is invariant under any permutation of a match list with unique ids (C11_permutation), because the processing order is the unique sorted permutation for the total order rank desc / id desc (C11_order_determined, C11_order_is_rank_then_id). Tie: permutations of the match list and of the router insertion order, serialised actions compared byte for byte.",
+  "design": "DESIGN.md section 4, C11",
+  "note": "Trusted: as C05; serialisation is a function of the action (serde), insertion-order independence of the match SET is C01/C02's subject and is exercised here by correspondence only."},
 }
 REASON_PENDING = "not yet claimed: model and theorems under construction (DESIGN.md section 8 build order); no check is registered until it decides the property"
 
